@@ -251,7 +251,7 @@ func (g *gen) randLay(in bool) int {
 		return 0
 	}
 	if in {
-		return []int{1, 2, 3, 4, 5, 6}[g.r.Intn(6)]
+		return []int{1, 2, 3, 4, 5, 6, 7, 7}[g.r.Intn(8)]
 	}
 	return []int{1, 4, 5, 6}[g.r.Intn(4)]
 }
